@@ -62,6 +62,103 @@ Proof.
   intros Hx Hy E. rewrite <- (from_be_h32b x Hx), <- (from_be_h32b y Hy). congruence.
 Qed.
 
+(* ------------------------------------------------------------------ cursor reads *)
+Lemma take_app a r n : length a = n -> take n (a ++ r) = Ok (a, r).
+Proof.
+  intros Hn. unfold take. rewrite app_length, Hn.
+  replace (Nat.ltb (n + length r) n) with false by (symmetry; apply Nat.ltb_ge; lia).
+  rewrite firstn_app_exact, skipn_app_exact by exact Hn. reflexivity.
+Qed.
+Lemma rd_le_app n x r : x < 256 ^ N.of_nat n -> rd_le n (le_b n x ++ r) = Ok (x, r).
+Proof.
+  intros Hx. unfold rd_le. rewrite take_app by apply le_b_length.
+  rewrite from_le_le_b by exact Hx. reflexivity.
+Qed.
+Lemma rd_h_app x r : x < 2 ^ 256 -> rd_h (h32b x ++ r) = Ok (x, r).
+Proof.
+  intros Hx. unfold rd_h. rewrite take_app by apply h32b_length.
+  rewrite from_be_h32b by exact Hx. reflexivity.
+Qed.
+Lemma rd_byte_app k r : k < 256 -> rd_le 1 ([k] ++ r) = Ok (k, r).
+Proof.
+  intros Hk. unfold rd_le. rewrite take_app by reflexivity. cbn [from_le]. f_equal. f_equal. lia.
+Qed.
+Lemma rd_vec_app pb r : lenN pb < 2 ^ 64 -> rd_vec (le_b 8 (lenN pb) ++ pb ++ r) = Ok (pb, r).
+Proof.
+  intros Hl. unfold rd_vec. rewrite rd_le_app by exact Hl.
+  replace (lenN (pb ++ r) <? lenN pb) with false.
+  2:{ symmetry. apply N.ltb_ge. unfold lenN. rewrite app_length. lia. }
+  unfold lenN. rewrite Nat2N.id.
+  rewrite firstn_app_exact, skipn_app_exact by reflexivity. reflexivity.
+Qed.
+
+Lemma rkind_valid_lt k : rkind_valid k = true -> k < 256.
+Proof. unfold rkind_valid. rewrite andb_true_iff, !N.leb_le. lia. Qed.
+Lemma comp_valid_lt k : comp_valid k = true -> k < 256.
+Proof. unfold comp_valid. rewrite N.eqb_eq. lia. Qed.
+Lemma red_valid_lt k : red_valid k = true -> k < 256.
+Proof. unfold red_valid. rewrite andb_true_iff, !N.leb_le. lia. Qed.
+Lemma txkind_valid_lt k : txkind_valid k = true -> k < 256.
+Proof. unfold txkind_valid. rewrite andb_true_iff, !N.leb_le. lia. Qed.
+Lemma dur_valid_lt k : dur_valid k = true -> k < 256.
+Proof. unfold dur_valid. rewrite andb_true_iff, !N.leb_le. lia. Qed.
+
+(* decode . encode = id on well-formed records (hash free part) *)
+Lemma parse_encode_frame f : wf_frame f -> parse_frame (encode_frame f) = Ok f.
+Proof.
+  intros (H1 & H2 & H3 & H4 & H5 & H6 & H7 & H8 & H9 & H10 & H11 & H12 & H13 & H14 & H15 & H16 &
+          H17 & H18 & H19 & H20 & H21).
+  unfold encode_frame, parse_frame.
+  rewrite <- (app_nil_r (le_b 4 (f_fchk f))).
+  rewrite (rd_le_app 2) by exact H1. cbv beta iota.
+  rewrite rd_h_app by exact H2. cbv beta iota.
+  rewrite (rd_le_app 8) by exact H3. cbv beta iota.
+  rewrite (rd_le_app 8) by exact H4. cbv beta iota.
+  rewrite rd_h_app by exact H5. cbv beta iota.
+  rewrite (rd_le_app 4) by exact H6. cbv beta iota.
+  rewrite rd_byte_app by (apply rkind_valid_lt; exact H7). cbv beta iota.
+  rewrite H7. cbn [negb].
+  rewrite (rd_le_app 8) by exact H8. cbv beta iota.
+  rewrite rd_h_app by exact H9. cbv beta iota.
+  rewrite rd_h_app by exact H10. cbv beta iota.
+  rewrite rd_h_app by exact H11. cbv beta iota.
+  rewrite (rd_le_app 2) by exact H12. cbv beta iota.
+  rewrite (rd_le_app 2) by exact H13. cbv beta iota.
+  rewrite rd_h_app by exact H14. cbv beta iota.
+  rewrite rd_byte_app by (apply comp_valid_lt; exact H15). cbv beta iota.
+  rewrite H15. cbn [negb].
+  rewrite rd_byte_app by (apply red_valid_lt; exact H16). cbv beta iota.
+  rewrite H16. cbn [negb].
+  rewrite rd_h_app by exact H17. cbv beta iota.
+  rewrite (rd_le_app 4) by exact H18. cbv beta iota.
+  rewrite (rd_le_app 2) by exact H19. cbv beta iota.
+  rewrite rd_vec_app by exact H20. cbv beta iota.
+  rewrite (rd_le_app 4) by exact H21. cbv beta iota.
+  destruct f; reflexivity.
+Qed.
+
+Lemma decode_encode_commit c : wf_commit c -> decode_commit (encode_commit c) = Ok c.
+Proof.
+  intros (H1 & H2 & H3 & H4 & H5 & H6 & H7 & H8 & H9 & H10 & H11 & H12).
+  unfold encode_commit, decode_commit.
+  rewrite <- (app_nil_r (h32b (c_digest c))).
+  rewrite rd_h_app by exact H1. cbv beta iota.
+  rewrite rd_h_app by exact H2. cbv beta iota.
+  rewrite rd_byte_app by (apply txkind_valid_lt; exact H3). cbv beta iota.
+  rewrite H3. cbn [negb].
+  rewrite (rd_le_app 8) by exact H4. cbv beta iota.
+  rewrite (rd_le_app 8) by exact H5. cbv beta iota.
+  rewrite (rd_le_app 8) by exact H6. cbv beta iota.
+  rewrite rd_h_app by exact H7. cbv beta iota.
+  rewrite rd_h_app by exact H8. cbv beta iota.
+  rewrite rd_h_app by exact H9. cbv beta iota.
+  rewrite rd_byte_app by (apply dur_valid_lt; exact H10). cbv beta iota.
+  rewrite H10. cbn [negb].
+  rewrite (rd_le_app 2) by exact H11. cbv beta iota.
+  rewrite rd_h_app by exact H12. cbv beta iota.
+  destruct c; reflexivity.
+Qed.
+
 Section WithHash.
 Variable H : bytes -> N.
 
@@ -195,7 +292,7 @@ Lemma read_loop_torn fuel r k :
   read_loop H dec (S fuel) (firstn k (d_enc r)) = Ok ([], true).
 Proof.
   intros (Hk & Hl & Hd) Hk0 Hkn. destruct r as [[kind payload] v].
-  unfold d_enc, d_kind, d_payload, d_val, d_size in *. cbn [fst snd] in *.
+  unfold d_size in *. unfold d_enc, d_kind, d_payload, d_val in *. cbn [fst snd] in *.
   rewrite enc_rec_hdr.
   set (dg := h32b (disk_digest H kind payload)).
   assert (Hdg : length dg = 32%nat) by apply h32b_length.
@@ -256,4 +353,51 @@ Corollary read_records_prefix rs k : Forall d_wf rs ->
 Proof. intros Hw. unfold read_records. apply read_loop_prefix; auto. Qed.
 
 End ReadPrefix.
+
+(* instance: frames and commit markers *)
+Lemma decode_rec_enc r : lrec_wf H r -> decode_rec H (lrec_kind r) (lrec_payload r) = Ok r.
+Proof.
+  destruct r as [f|c]; cbn [lrec_wf lrec_kind lrec_payload]; unfold decode_rec; cbn [N.eqb Pos.eqb].
+  - intros [Hw Hok]. unfold decode_frame. rewrite parse_encode_frame by exact Hw. rewrite Hok. reflexivity.
+  - intros Hw. rewrite decode_encode_commit by exact Hw. reflexivity.
+Qed.
+
+
+Definition to_drec (r : lrec) : drec (A := lrec) := (lrec_kind r, lrec_payload r, r).
+
+Lemma whole_within_map {X Y} (g : X -> Y) (sx : X -> nat) (sy : Y -> nat) :
+  (forall x, sy (g x) = sx x) -> forall l k,
+  whole_within sy k (map g l) = map g (whole_within sx k l).
+Proof.
+  intros E l. induction l as [|x l IH]; intros k; cbn [map whole_within]; auto.
+  rewrite E. destruct (Nat.leb (sx x) k); cbn [map]; [rewrite IH|]; reflexivity.
+Qed.
+Lemma on_boundary_map {X Y} (g : X -> Y) (sx : X -> nat) (sy : Y -> nat) :
+  (forall x, sy (g x) = sx x) -> forall l k,
+  on_boundary sy k (map g l) = on_boundary sx k l.
+Proof.
+  intros E l. induction l as [|x l IH]; intros k; cbn [map on_boundary]; auto.
+  rewrite E. destruct k; auto. destruct (Nat.leb (sx x) (S k)); auto.
+Qed.
+
+(* payload sizes: every encodable record payload is far below 2^64 bytes when its variable part is *)
+Definition payload_small (r : lrec) : Prop := lenN (lrec_payload r) < 2 ^ 64.
+
+Theorem read_segment_prefix rs k :
+  Forall (lrec_wf H) rs -> Forall payload_small rs ->
+  read_segment H (firstn k (encode_log H rs)) =
+  Ok (whole_within lrec_size k rs, negb (on_boundary lrec_size k rs)).
+Proof.
+  intros Hw Hs. unfold read_segment.
+  assert (E : encode_log H rs = d_log (map to_drec rs)).
+  { unfold encode_log, d_log. rewrite flat_map_concat_map, flat_map_concat_map, map_map. reflexivity. }
+  rewrite E, (read_records_prefix (decode_rec H)).
+  - rewrite (whole_within_map to_drec lrec_size) by reflexivity.
+    rewrite (on_boundary_map to_drec lrec_size) by reflexivity.
+    rewrite map_map. cbn [to_drec d_val snd]. rewrite map_id. reflexivity.
+  - apply Forall_map. rewrite Forall_forall in *. intros r Hr. unfold d_wf, to_drec, d_kind, d_payload, d_val.
+    cbn [fst snd]. split; [destruct r; cbn; lia|]. split; [apply Hs; exact Hr|].
+    apply decode_rec_enc. apply Hw. exact Hr.
+Qed.
+
 End WithHash.
